@@ -218,6 +218,28 @@ CLAIMS = {
         'technique': 'CFG guard-dominance + data-dependence + finite '
                      'abstract evaluation + sibling agreement (ast)',
     },
+    'C18': {
+        'text': 'Decides the resolution structure: every option handler '
+                'registered in the client and server tables (84 '
+                'registrations, 12 setter functions) stores only when the '
+                'option is not yet set (first value wins) and the appenders '
+                'extend; the server\'s %u token is set only past the '
+                'no-match edge of the unsafe-user filter, an unsafe name '
+                'raises, and the filter regex literal (read from the source, '
+                'applied with stdlib re) matches 14 unsafe witnesses and '
+                'none of 9 safe ones; the server expands tokens only in '
+                'AuthorizedKeysFile; Match is evaluated by finite abstract '
+                'interpretation over ~340 criterion sequences (matching ∧ '
+                'result ≠ negated), Host builds ONE pattern list per line, '
+                'options of non-matching blocks are skipped, Include '
+                'restores position and matching; _expand_val is called only '
+                'for opted-in options after _set_tokens.',
+        'note': TB + 'not decided: agreement with ssh -G on arbitrary files '
+                '(external oracle); shlex tokenisation; value parsing.',
+        'technique': 'handler-table extraction + CFG guard-dominance + '
+                     'finite abstract evaluation + regex literal applied to '
+                     'a witness set + who-may-call (ast)',
+    },
 }
 
 PENDING = 'check not built yet in this session (planned, see DESIGN.md section 5)'
